@@ -34,6 +34,7 @@ from typing import TextIO
 from typing import Union
 
 from numpy import apply_along_axis
+from numpy import hstack
 from numpy import ndarray
 from numpy import vstack
 from pandas import read_csv
@@ -141,7 +142,9 @@ class CustomDOE(BaseDOELibrary):
             )
 
         if isinstance(samples, Mapping):
-            samples = design_space.convert_dict_to_array(samples)
+            # One 2D array per variable, to be put side by side
+            # in the order of the variables of the design space.
+            samples = hstack([samples[name] for name in design_space])
         elif not isinstance(samples, ndarray):
             samples = vstack([
                 design_space.convert_dict_to_array(sample) for sample in samples
